@@ -127,6 +127,34 @@ def judge(mm, name, j, opts):
     return n, "ignored" if not vs else "affected", vs
 
 
+def _site_task(args):
+    """Union-site shapes of C14 (single-element and heterogeneous arrays, maximal alternatives) as base values."""
+    idx, k, full = args
+    from . import c14
+    from ..vse import VSE
+    from ..mm import is_null_type
+    mm = get_mm()
+    vse = VSE(mm)
+    ok, on, path, ort, via = c14.union_sites(mm)[idx]
+    n = 0
+    vs = []
+    roots = [r for r in c14.roots_for_site(mm, ok, on, path) if root_class(r[0]) is not None and r[0] not in mm.aliases]
+    for alt in ort["items"]:
+        if is_null_type(alt):
+            continue
+        for slabel, v in c14.shapes(mm, vse, alt, k):
+            if slabel.startswith("max-") or (slabel == "pair" and not full):
+                continue
+            for rname, rt, rpath in roots:
+                j = c14.embed(mm, vse, rt, rpath, v)
+                if j is None or not mm.valid(j, rt, True):
+                    continue
+                ne, oc, out = judge(mm, rname, j, {"full": False})
+                n += ne
+                vs += out
+    return n, vs, vse.states, vse.transitions
+
+
 def run(ctx):
     mm = get_mm()
     res = Result()
@@ -136,12 +164,23 @@ def run(ctx):
     opts = {"cap_s": 900 if ctx.thorough else 120, "full": ctx.thorough}
     a, v = explore_roots(ctx, judge, roots, kmin, kmax, opts)
     res.merge_violations(v)
+    import multiprocessing as mp
+    from . import c14
+    nsites = len(c14.union_sites(mm))
+    with mp.get_context("fork").Pool(ctx.workers) as pool:
+        parts = pool.map(_site_task, [(i, 1, ctx.thorough) for i in range(nsites)], chunksize=2)
+    for n_, vs_, st_, tr_ in parts:
+        a["evals"] += n_
+        a["states"] += st_
+        a["transitions"] += tr_
+        res.merge_violations(vs_)
     res.coverage = {
         "states": a["states"], "transitions": a["transitions"],
         "traces_validated_against_impl": a["evals"], "evaluations": a["evals"],
         "distinct_nontrivial": a["distinct_nt"],
         "rule": "every VSE derivation (k<=%d, plus the maximal value) of every root x every protocol-object node x %s of fresh names %s and "
-                "payloads %s; structure(j+) must succeed, equal structure(j) and re-serialise identically" % (
+                "payloads %s; plus the union-site shapes of C14 (minimal, maximal, single-element arrays; thorough: heterogeneous pairs) as base "
+                "values; structure(j+) must succeed, equal structure(j) and re-serialise identically" % (
                     kmin, "all 20 combinations" if ctx.thorough else "8 combinations (each name, each payload)", NAMES, PAYLOADS),
         "roots": a["roots"], "outcome_classes": a["outcomes"], "capped_roots": a["capped"], "exhaustive": not a["capped"],
         "samples": a["samples"],
